@@ -542,6 +542,11 @@ def run_c13(script, rng, summary):
     elif rng.random() < 0.4:
         # early stops of the incremental loop (every small iteration budget takes another exit of the loop)
         cfg["max_iter"] = rng.choice([1, 1, 2, 3])
+    if cfg["optimizer"] == "optimize" and f42_region(script):
+        # z3.Optimize on quantified buffer rules / nonlinear costs answers `unknown` or a non-optimal model (recorded
+        # findings F42, F44 — z3's own disclaimer): the sequence is run with the incremental optimiser instead
+        count(summary, f"run_c13_builtin_not_used_known_{f42_region(script)}_region")
+        cfg = {"optimizer": "incremental"}
     multi_equiv = nobj > 1 and (cfg["optimizer"] == "incremental" or cfg.get("optimize_priority") == "weight")
     pool = ["solve", "solve", "solve", "findAnother", "findAnother", "export"] + ([] if multi_equiv else ["initialize"])
     ops = [rng.choice(pool) for _ in range(rng.randint(2, 5))]
